@@ -43,6 +43,8 @@ class Pop:
         return self.ix[node.id]
 
     def idx(self, node):
+        if isinstance(node, ast.Name) and node.id in getattr(self, 'pair_alias', {}):
+            return '(%s %d)' % self.pair_alias[node.id]
         if isinstance(node, ast.Name):
             return '(IVar %d)' % self.known(node)
         if isinstance(node, ast.Subscript) and isinstance(node.slice, ast.Constant) and type(node.slice.value) is int \
@@ -91,6 +93,27 @@ class Pop:
         return '[' + '; '.join(out) + ']'
 
     def stmt(self, st):
+        if (isinstance(st, ast.For) and not st.orelse and isinstance(st.target, ast.Tuple) and len(st.target.elts) == 2
+                and all(isinstance(e, ast.Name) for e in st.target.elts) and isinstance(st.iter, ast.Call)
+                and (self.call_on(st.iter, None, 'pairwise', 1) or (isinstance(st.iter.func, ast.Name) and st.iter.func.id == 'pairwise'
+                                                                     and len(st.iter.args) == 1))):
+            # `for a, b in g.pairwise(l)` is `for s in g.pairwise(l)` with a = s[0], b = s[1] when every chunk is a pair, i.e. when the
+            # length of l is even -- which the translator requires to have been established by the rounding statement before
+            a, b = st.target.elts[0].id, st.target.elts[1].id
+            if not getattr(self, 'evened', False):
+                self.err(st, 'tuple-unpacking loop over pairwise() without the rounding of the count to an even number before it')
+            if a == b or a in self.ix or b in self.ix or a in (self.me, self.sp) or b in (self.me, self.sp):
+                self.err(st, 'the names of the unpacked pair are already in use')
+            l = self.known(st.iter.args[0])
+            pair = '<pair %s %s>' % (a, b)
+            self.ix[pair] = len(self.ix)
+            self.pair_alias = {a: ('IFst', self.ix[pair]), b: ('ISnd', self.ix[pair])}
+            for n in ast.walk(st):
+                if isinstance(n, ast.Name) and n.id in (a, b) and isinstance(n.ctx, ast.Store) and n not in st.target.elts:
+                    self.err(n, 'a name of the unpacked pair is re-bound in the loop')
+            text = 'PForPairs %d %d %s' % (self.ix[pair], l, self.block(st.body))
+            self.pair_alias = {}
+            return text
         if isinstance(st, ast.For) and not st.orelse and isinstance(st.target, ast.Name):
             it = st.iter
             if isinstance(it, ast.Name):
@@ -119,6 +142,7 @@ class Pop:
                       and body[0].value.value == 1 and type(body[0].value.value) is int)
                 if not ok:
                     self.err(st, 'parity test that does not just add one')
+                self.evened = True
                 return 'PEvenUp %d' % v
             c = self.cond(t)
             return 'PIf %s %s %s' % (c, self.block(st.body), self.block(st.orelse))
